@@ -17,7 +17,7 @@ RULE = ("random API histories (add_resource 45%, add_window 25%, align_to 15%, f
         "(2-4 levels with changing data widths); non-trivial = at least 3 successful additions, one failed call and one "
         "window; distinct by hash of the op list")
 EXC = {"ValueError": 1, "TypeError": 2, "KeyError": 3, "AssertionError": 4}
-PARTS = ["a", "b", "ab", "0", "1", 0, 1, 2]
+PARTS = ["a", "b", "ab", "0", "1", 0, 1, 2, 300]      # 300: an integer beyond the interpreter's small-int cache
 NEVER = 99          # id of an object that is never added
 
 
@@ -442,7 +442,10 @@ def _pyname(n):
     if "s" in n:
         return n["s"]
     if "t" in n:
-        t = tuple(1.5 if p is None else p for p in n["t"])
+        # integer parts are fresh objects on every call (an index computed at run time is never the same object
+        # as another equal one, beyond the interpreter's cache of small integers)
+        t = tuple(1.5 if p is None else (int(str(p)) if isinstance(p, int) and not isinstance(p, bool) else p)
+                  for p in n["t"])
         if len(t) % 2 == 0:
             # the same name as a ready-made MemoryMap.Name (when it is one): the spelling must not matter
             from amaranth_soc.memory import MemoryMap
